@@ -1,0 +1,43 @@
+//go:build verif
+
+package memefish
+
+import "github.com/cloudspannerecosystem/memefish/token"
+
+// VerifEvent is one observation emitted by the verification hooks (build tag "verif" only).
+type VerifEvent struct {
+	Ev      string      // Snapshot | TokBegin | Tok | Recover | Bad
+	File    *token.File // identifies the parser/lexer the event belongs to
+	NoPanic bool        // lexer mode of the step (Tok*), or true for Bad
+	Cursor  int         // byte cursor of the lexer after the step
+	Dot     bool        // dot-identifier mode after the step
+	Kind    token.TokenKind
+	TokPos  token.Pos
+	TokEnd  token.Pos
+	NComm   int // number of comments attached to the current token
+	A, B, C int // event specific scalars
+}
+
+// VerifSink receives the events. It must be set before any parsing starts and not changed afterwards.
+// A sink may block: the C18 harness uses it as a scheduler gate.
+var VerifSink func(ev *VerifEvent)
+
+func verifHook(ev string, l *Lexer, noPanic bool, a, b, c int) {
+	if VerifSink == nil || l == nil {
+		return
+	}
+	VerifSink(&VerifEvent{
+		Ev: ev, File: l.File, NoPanic: noPanic, Cursor: l.pos, Dot: l.dotIdent,
+		Kind: l.Token.Kind, TokPos: l.Token.Pos, TokEnd: l.Token.End, NComm: len(l.Token.Comments),
+		A: a, B: b, C: c,
+	})
+}
+
+// VerifNextTokenNoPanic exposes the recovery-mode lexer step.
+func (l *Lexer) VerifNextTokenNoPanic() { l.nextToken(true) }
+
+// VerifCursor exposes the byte cursor.
+func (l *Lexer) VerifCursor() int { return l.pos }
+
+// VerifErrors exposes the number of errors recorded so far.
+func (p *Parser) VerifErrors() int { return len(p.errors) }
